@@ -65,6 +65,129 @@ def generate(res):
     return items, bad
 
 
+# ---------------------------------------------------------------- the validation tie (Model/Assure.v)
+A_TAGS = None
+
+
+def a_xml(t):
+    if t == "T":
+        return "x"
+    tag, enc, kids = t
+    a = " encoding='MathML-Presentation'" if enc is True else (" encoding='%s'" % enc if enc else "")
+    return "<%s%s>%s</%s>" % (tag, a, "".join(a_xml(k) for k in kids), tag)
+
+
+def a_coq(t):
+    if t == "T":
+        return "Tx"
+    tag, enc, kids = t
+    return "El %s %s [%s]" % (cstr(tag), "true" if enc is True else "false", "; ".join(a_coq(k) for k in kids))
+
+
+def a_tree(rng, sets, depth):
+    leafs, empties, alls = sets["leaf_nodes"], sets["empty_elements"], sets["all_mathml_elements"]
+    r = rng.random()
+    if depth <= 0 or r < 0.35:
+        tag = rng.choice(leafs if rng.random() < 0.85 else empties)
+        q = rng.random()
+        # (trim_element, in front of the validation, turns whatever a token holds into one text and drops text elsewhere:
+        #  only trees it leaves alone are generated)
+        kids = ["T"] if q < 0.7 and tag in leafs else []
+        if tag in empties and rng.random() < 0.8:
+            kids = []
+        return (tag, False, kids)
+    if r < 0.50:
+        tag = "mmultiscripts"
+        n = rng.randint(0, 8)
+        kids = [("mprescripts", False, []) if rng.random() < 0.22 else (("none", False, []) if rng.random() < 0.2 else a_tree(rng, sets, depth - 2)) for _ in range(n)]
+        return (tag, False, kids)
+    if r < 0.62:
+        n = rng.randint(0, 4)
+        kids = []
+        for i in range(n):
+            q = rng.random()
+            if q < 0.4:
+                kids.append(a_tree(rng, sets, depth - 1))
+            elif q < 0.7:
+                inner = [a_tree(rng, sets, depth - 1) for _ in range(rng.choice([0, 1, 1, 1, 2]))]
+                kids.append(("annotation-xml", rng.choice([True, True, False, "MathML-Content"]), inner))
+            else:
+                kids.append(("annotation", rng.choice([False, False, "application/x-tex", True]), rng.choice([["T"], [], ["T"]])))
+        return ("semantics", False, kids)
+    if r < 0.80:
+        tag = rng.choice(sets["fixed_children"])
+        n = rng.choice([2, 2, 3, 3, 1, 0, 4])
+        return (tag, False, [a_tree(rng, sets, depth - 1) for _ in range(n)])
+    tag = rng.choice(alls + ["foo", "annotation-xml", "apply", "svg", "mprescripts", "msline"]) if rng.random() < 0.9 else rng.choice(["semantics", "annotation"])
+    if tag in leafs:
+        return (tag, False, ["T"])
+    return (tag, rng.random() < 0.03, [a_tree(rng, sets, depth - 1) for _ in range(rng.randint(0, 3))])
+
+
+def assure_observations(res):
+    import itertools
+    can = C.read(os.path.join(C.REPO, "src", "canonicalize.rs"))
+    xpf = C.read(os.path.join(C.REPO, "src", "xpath_functions.rs"))
+    sets = C.translate(res, "c02-assure", "name sets of assure_mathml (canonicalize.rs, xpath_functions.rs)", lambda: GE.assure_sets(can, xpf))
+    C.write_if_changed(os.path.join(C.GEN, "AssureSets.v"), GE.render(sets))
+    tier = res.tier if res else "quick"
+    rng = random.Random((res.seed if res else 1) * 617 + 2)
+    trees = []
+    x, none, pre = ("mi", False, ["T"]), ("none", False, []), ("mprescripts", False, [])
+    for n in range(0, 7 if tier == "quick" else 9):           # every arrangement of scripts, <none/> and <mprescripts/>
+        for combo in itertools.product([x, none, pre], repeat=n):
+            if n <= 6 or combo.count(pre) >= 2 or rng.random() < 0.1:
+                trees.append(("math", False, [("mmultiscripts", False, list(combo))]))
+    for tag in sets["fixed_children"] + [g for g in sets["all_mathml_elements"] if g not in sets["leaf_nodes"]] + ["semantics", "foo"]:
+        for n in range(0, 5):
+            trees.append(("math", False, [(tag, False, [x] * n)]))
+    for tag in sets["leaf_nodes"] + sets["empty_elements"]:
+        for kids in ([], ["T"]):
+            if kids == [] or tag in sets["leaf_nodes"]:
+                trees.append(("math", False, [("mrow", False, [(tag, False, kids), x])]))
+    ann = lambda enc, kids: ("annotation-xml", enc, kids)
+    for kids in ([], [x], [x, x], [("mrow", False, [x, x])], [("mfrac", False, [x])]):
+        for enc in (True, False, "MathML-Content"):
+            trees += [("math", False, [("semantics", False, [ann(enc, kids)])]), ("math", False, [("semantics", False, [x, ann(enc, kids)])]),
+                      ("math", False, [("semantics", False, [ann(enc, kids), x])]), ("math", False, [("semantics", False, [x, ("annotation", False, ["T"]), ann(enc, kids)])]),
+                      ("math", False, [("semantics", False, [ann(False, [x]), ann(enc, kids)])])]
+    trees += [("math", False, [a_tree(rng, sets, 3)]) for _ in range(600 if tier == "quick" else 6000)]
+    sessions = [{"id": i, "ops": [["set_rules_dir", C.RULES]] + [["v_canon_stage", a_xml(t), "assure"] for t in trees[i::16]]} for i in range(16)]
+    out = C.run_harness(sessions)
+    obs, skipped = [], 0
+    for i, r in enumerate(out):
+        rr = r.get("res", [])[1:]
+        for t, o in zip(trees[i::16], rr):
+            if "ok" in o:
+                obs.append((t, True))
+            elif "err" in o and "Invalid MathML input" not in str(o["err"]):
+                obs.append((t, False))
+            else:
+                skipped += 1
+                if "panic" in o:
+                    res.violation("the validation panics on %s: %s" % (a_xml(t)[:300], o["panic"][:200]), {"kind": "structure", "mathml": a_xml(t), "problems": ["panic"], "got": ""})
+    body = HEADER + "From MC Require Import Model.Assure.\nDefinition assure_obs : list (node * bool) := " + \
+        clist(("(%s, %s)" % (a_coq(t), "true" if a else "false") for t, a in obs), per_line=1) + ".\n"
+    C.write_if_changed(os.path.join(C.GEN, "AssureObs.v"), body)
+    if res is not None:
+        res.extra["assure_tie_cases"] = len(obs)
+        res.extra["assure_tie_accepted"] = sum(1 for _, a in obs if a)
+        res.extra["assure_tie_skipped"] = skipped
+    return obs
+
+
+def py_assure_disagreements(log, obs):
+    """the observations the kernel names as disagreeing (bad_idx of Tie/AssureTie.v)"""
+    m = re.findall(r"=\s*\(20020002,\s*\[([^\]]*)\]\)", log)
+    out = []
+    for grp in m:
+        for xx in grp.replace("\n", " ").split(";"):
+            xx = xx.strip().replace("%N", "")
+            if xx.isdigit() and int(xx) < len(obs):
+                out.append(obs[int(xx)])
+    return out
+
+
 def structure_problems(xml):
     """list of violated clauses for a returned MathML string"""
     try:
@@ -171,14 +294,32 @@ def match_known(xml, probs):
 
 
 def run(res):
-    res.rule = ("tie: 120 (quick) / 1200 attribute values over the special characters + hand-picked ones, through set_mathml; oracle: the C01 corpus "
+    res.rule = ("validation tie: every arrangement of up to 6 (8) scripts, <none/> and <mprescripts/> in mmultiscripts, every element name with 0-4 children, tokens and "
+                "empty elements with every kind of content, semantics with every placement and content of a presentation annotation, 600 (6000) seeded trees, through "
+                "the validation alone (hook) against Model/Assure.v; "
+                "escape tie: 120 (quick) / 1200 attribute values over the special characters + hand-picked ones, through set_mathml; oracle: the C01 corpus "
                 "(textbook, all-operator rows, degenerate structures, merge-pass rows) through set_mathml and get_navigation_mathml; "
                 "non-trivial = inputs longer than 200 characters")
     generate(res)
+    aobs = assure_observations(res)
 
     def on_broken(log):
-        return oracle(res) > 0
-    proved = C.check_proofs(res, "C02", ["Props/C02.vo", "Tie/C02Tie.vo"], "Props/C02.v", search=on_broken)
+        n = 0
+        for t, lib in py_assure_disagreements(log, aobs)[:40]:
+            # the validation and its model disagree on this tree: does what set_mathml returns for it break the property?
+            q = C.one_session([["set_mathml", a_xml(t)]])["res"][0]
+            if "panic" in q:
+                probs = ["set_mathml panics: " + q["panic"][:200]]
+            else:
+                probs = structure_problems(q["ok"]) if "ok" in q else []
+            if probs:
+                n += 1
+                res.violation("set_mathml for %s (validation %s, its model %s): %s" % (a_xml(t)[:300], "accepts" if lib else "refuses", "refuses" if lib else "accepts", "; ".join(probs[:3])),
+                              {"kind": "structure", "mathml": a_xml(t), "problems": probs, "got": q.get("ok", "")})
+                if n >= 3:
+                    break
+        return n + oracle(res) > 0
+    proved = C.check_proofs(res, "C02", ["Props/C02.vo", "Tie/C02Tie.vo", "Tie/AssureTie.vo"], "Props/C02.v", search=on_broken)
     if proved:
         oracle(res)
     res.trusted += ["gen/c02.py (arms of handle_special_chars, attribute delimiter of format_attrs)", "python's xml.etree as the XML well-formedness reference of the oracle"]
